@@ -1844,7 +1844,7 @@ fn overlap_cases(fam: Fam, kind: Kind) -> Vec<Case> {
     // everybody tries every price that is around
     let round = |who: &str, prices: &[u128]| -> Vec<COp> {
         let mut o = vec![];
-        for p in prices {
+        for p in prices.iter().take(2) {
             o.push(member(NM, *p));
         }
         for p in prices {
@@ -2009,6 +2009,7 @@ fn wl_admin_cases(fam: Fam, kind: Kind, full: bool) -> Vec<Case> {
             at_round(T(1000, 0), 0, &[60]), at_round(T(1600, -1), 1, &[70]), at_round(T(1600, 0), 1, &[70]), at_round(T(2000, 0), 1, &[70]),
         ]);
         // one stage, three lists: two AddStages walk into both surplus indices
+        if full {
         add("instantiate-two-surplus-lists", vec![shaped(vec![s0()], vec![names(&[NM]), names(&[STRANGER, M1])], 0)], vec![
             vec![attach(CREATOR, 0), at(T(500, 0)), ads(CREATOR, 0, s1(&[M2])), ads(CREATOR, 0, s2(&[M2]))],
             at_round(T(1600, 0), 1, &[70]), at_round(T(2100, 0), 2, &[80]), at_round(T(2600, 0), 2, &[80]),
@@ -2020,16 +2021,19 @@ fn wl_admin_cases(fam: Fam, kind: Kind, full: bool) -> Vec<Case> {
             vec![COp::WlAdd { who: CREATOR.into(), slot: 0, stage: 2, members: names(&[NM]) }],
             round(2, &[80]),
         ]);
+        }
         // surplus list, then the last real stage is removed and two stages are added: indices 1 and 2 both re-created
         add("instantiate-surplus-remove-rebuild", vec![shaped(vec![s0(), s1(&[M2])], vec![names(&[NM])], 0)], vec![
             vec![attach(CREATOR, 0), at(T(500, 0)), rm(CREATOR, 0, 1), ads(CREATOR, 0, s1(&[STRANGER])), ads(CREATOR, 0, s2(&[M1]))],
             at_round(T(1600, 0), 1, &[70]), at_round(T(2100, 0), 2, &[80]),
         ]);
+        if full {
         // empty lists: a stage nobody is in, an empty surplus list, then a stage added with a list
         add("instantiate-empty-lists", vec![shaped(vec![st(T(1000, 0), T(1500, 0), 60, &[]), s1(&[M2])], vec![vec![]], 0)], vec![
             vec![attach(CREATOR, 0), at(T(500, 0)), ads(CREATOR, 0, s2(&[NM]))],
             at_round(T(1000, 0), 0, &[60]), at_round(T(1600, 0), 1, &[70]), at_round(T(2100, 0), 2, &[80]),
         ]);
+        }
         // fewer lists than stages: refused at creation as the code stands; should it ever be accepted,
         // the stage without a list has no members
         add("instantiate-fewer-lists", vec![shaped(vec![s0(), s1(&[M2])], vec![], 1)], vec![
@@ -2323,10 +2327,10 @@ fn corpus(thorough: bool, rng: &mut Rng) -> Vec<Case> {
                 v.extend(set_whitelist_cases(fam, *kind));
             } else if ki == fi % kinds.len() {
                 // quick tier: the +1ns neighbours of the old / new whitelist's edges are left to the thorough tier
-                v.extend(set_whitelist_cases(fam, *kind).into_iter().filter(|c| !((c.label.ends_with("+1ns") || c.label.ends_with("-1ns")) && !c.label.contains(":start"))));
+                v.extend(set_whitelist_cases(fam, *kind).into_iter().filter(|c| c.label.contains(":start") || c.label.contains(":replace-") || c.label.ends_with(":old-start") || c.label.ends_with(":new-end")));
             } else {
                 // the start boundary of SetWhitelist for every pairing even in the quick tier
-                v.extend(set_whitelist_cases(fam, *kind).into_iter().filter(|c| c.label.contains(":start") || c.label.ends_with(":replace-matrix")));
+                v.extend(set_whitelist_cases(fam, *kind).into_iter().filter(|c| c.label.ends_with(":replace-matrix")));
             }
         }
         v.extend(update_start_cases(fam, None));
